@@ -317,7 +317,7 @@ RunTerm(M, F, t, k) ==
     [] tm.k = "result" -> BodyReturn(SegEndEv(M, t, k, 3, Val("N", 0, <<>>)), F, t, 0)
     [] tm.k \in {"raise", "raiseb"} -> LET u == M.uidc + 1 IN
                           BodyRaise(SegEndEv([M EXCEPT !.uidc = u], t, k, 4, Val("N", 0, <<>>)), F, t,
-                                    VX((IF tm.k = "raise" THEN 10000 ELSE 11000) + t * 100 + k), u)
+                                    VX((IF tm.k = "raise" THEN 10000 ELSE 500000) + t * 100 + k), u)
 
 (* ---------------- one step of the machine --------------------------------------------------- *)
 IsBlocked(M, t) == \E i \in 1..Len(M.tk[t].deps) : ~IsDone(M, M.tk[t].deps[i])
